@@ -96,7 +96,7 @@ def explain(code):
 def random_case(rng, dims=(1, 1, 2, 3, 4, 5), max_iters=120):
     n = rng.choice(dims)
     lo, hi = H.random_box(rng, n, nice=rng.random() < 0.3)
-    obj = H.random_objective(rng, n, lo=lo, hi=hi, kinds=('sin', 'sin', 'sinq', 'sinq', 'cones', 'linear', 'quad', 'const'))
+    obj = H.random_objective(rng, n, lo=lo, hi=hi, kinds=('sin', 'sin', 'sinq', 'sinq', 'cones', 'linear', 'quad', 'const', 'multi', 'prod'))
     eps = rng.choice([0.5, 0.1, 0.02, 0.005, 1e-3, 1.5, 1e-9])
     iters = rng.choice([1, 2, 3, 7, 20, 50, max_iters])
     r = round(rng.uniform(1.1, 5.0), 3)
